@@ -123,7 +123,7 @@ func getCatalogs() *catalogs {
 //	   (the gcs script of the run is the prelude followed by the fragments of the characters in
 //	   team order; a fragment only names its own character, so that dropping a character from
 //	   the term -- shrinking -- leaves a well-formed script)
-//	En key level hp atk spd "ATTACK" hitCount damagePercent "DAMAGETYPE" [weakness enum values]
+//	En key level hp atk spd "ATTACK" hitCount damagePercent "DAMAGETYPE" [weakness enum values] rank stance
 // ---------------------------------------------------------------------------------------
 
 type runSpec struct {
@@ -210,6 +210,14 @@ func decodeSpec(t term.T) runSpec {
 		en.Parameters = st
 		for _, w := range term.List(e[9]) {
 			en.Weaknesses = append(en.Weaknesses, model.DamageType(term.Int(w)))
+		}
+		if len(e) > 11 {
+			if rk := term.Int(e[10]); rk != 0 {
+				en.Rank = model.EnemyRank(rk)
+			}
+			if st := term.Int(e[11]); st != 0 {
+				en.BaseStats.Stance = float64(st)
+			}
 		}
 		cfg.Enemies = append(cfg.Enemies, en)
 	}
